@@ -151,3 +151,21 @@ def run(repo, rep, tier):  # noqa: F811 -- round 7: type-level helper contracts 
 _ADDR7TP = " Borrowed: R02.8 / R02.9 (the type predicates and type-level helpers, interpreted from their own source over the catalogue types and a reference table, answer as the dispatch model and the documentation say)."
 EXPLANATION += _ADDR7TP
 LEVEL_TEXT += _ADDR7TP
+
+
+_run_before_r7df = run
+
+
+def run(repo, rep, tier):  # noqa: F811 -- round 7: CodeBuilder.dataclass_fields evaluated on inheritance shapes (typepreds.py)
+    _run_before_r7df(repo, rep, tier)
+    if getattr(rep, "borrowed", False):
+        return
+    from ..core import typepreds as _tp7df
+    _tp7df.builder_method_cases(repo, rep, "R07.9")
+
+
+_ADDR7DF = (" R07.9: CodeBuilder.dataclass_fields is interpreted from its own source (type-level evaluator, stub builder) on six inheritance shapes "
+            "-- two dataclass bases, an own Field, a bare re-annotation, a finished dataclass, a diamond, no ancestor -- and must return, per "
+            "name, the Field object of the nearest declaring ancestor, as dataclasses itself does.")
+EXPLANATION += _ADDR7DF
+LEVEL_TEXT += _ADDR7DF
